@@ -123,13 +123,27 @@ def run(ck: core.Check):
         w = writes.generate()
         ck.cov["generated_write_sites"] = len(w["sites"])
         ck.cov["generated_inline_events"] = w["inline_events"]
+        ck.cov["generated_mutate_attr_sites"] = sum(1 for x in w["sites"] if x["kind"] == "mutate-attr")
+        ck.cov["generated_module_level_containers"] = len(w.get("module_mutables", []))
+        ck.cov["generated_decorators"] = sorted({x[2] for x in w.get("decorators", [])})
+        ck.cov["generated_dict_access_sites"] = len(w.get("dict_access", []))
     except Exception as e:  # noqa: BLE001
         ck.broken("translator", "translator/writes.py could not read src/spox", f"{type(e).__name__}: {e}")
+    changed = lf.covered_code_changes(ck)
     ck.lean(["SpoxModel.Props.C12"], audit="SpoxModel.Audit.C12")
     if ck.thorough:
         ck.leanchecker(["SpoxModel.Props.C12"])
 
     rng = ck.rng
+    import time as _time
+
+    _t = [_time.time()]
+    phases = {}
+
+    def lap(name):
+        phases[name] = round(_time.time() - _t[0], 1)
+        _t[0] = _time.time()
+
     # ---- tie H (1): the manager on its own, real vs IR executor; model-free judgement alongside
     rcases = [gen_rename_case(rng) for _ in range(ck.pick(600, 4000))]
     try:
@@ -161,6 +175,7 @@ def run(ck: core.Check):
     ck.cov["rename_correspondence_cases"] = len(rcases)
     ck.cov["rename_correspondence_mismatches"] = mism
 
+    lap("renames")
     # ---- tie H (2): the front-end model gives one answer under every set order, equal to the real build
     progs = [lf.gen_program(rng) for _ in range(ck.pick(60, 400))]
     dcases = []
@@ -199,8 +214,9 @@ def run(ck: core.Check):
     ck.cov["set_order_correspondence_cases"] = len(dcases) * 5
     ck.cov["set_order_correspondence_mismatches"] = dm
 
+    lap("set_orders")
     # ---- oracle: histories, in this process (which has a long history of its own by now)
-    n_hist = ck.pick(800, 4000)
+    n_hist = ck.pick(1000 if changed else 650, 4000)  # code the models cover was edited: look harder
     hcases = []
     stats = {"ops": {}, "violating_histories": 0, "refs": 0}
     for _ in range(n_hist):
@@ -209,7 +225,8 @@ def run(ck: core.Check):
         hist = lh.gen_history(rng, prog, rng.randrange(2, 9))
         hcases.append({"prog": prog, "hist": hist, "ref": ref, "salt": rng.randrange(0, 200)})
     inproc = []
-    for c in hcases:
+    # (quick: all histories are generated - the later phases draw from the same PRNG - the first 560 are run)
+    for c in hcases[: ck.pick(900 if changed else 560, len(hcases))]:
         try:
             r = lh.run_case(c["prog"], c["hist"], c["ref"])
         except Exception as e:  # noqa: BLE001 - observation machinery, not a verdict
@@ -227,6 +244,7 @@ def run(ck: core.Check):
             small = shrink_history(c["prog"], c["hist"][: step + 1] if 0 <= step < len(c["hist"]) else c["hist"], c["ref"], key)
             ck.failure(key, what, {"mode": "history", "prog": c["prog"], "hist": small, "ref": c["ref"]})
 
+    lap("histories")
     # ---- oracle: Graph setters applied to an already built Graph (memoised build result)
     probes = 0
     for c in hcases[: ck.pick(60, 400)]:
@@ -243,8 +261,9 @@ def run(ck: core.Check):
             ck.failure(key, what, {"mode": "graphcache", "prog": c["prog"], "ref": c["ref"]})
     stats["graph_setter_probes"] = probes
 
+    lap("graph_setters")
     # ---- oracle: look-alike programs built, freed and built again (results keyed by object identity go stale)
-    n_fam = ck.pick(40, 200)
+    n_fam = ck.pick(30, 200)
     fams = 0
     for _ in range(n_fam):
         fam = lh.gen_reuse_family(rng, rng.randrange(4, 9))
@@ -261,6 +280,7 @@ def run(ck: core.Check):
             ck.failure(key, what, {"mode": "reuse", "family": fam})
     stats["reuse_families"] = fams
 
+    lap("reuse_families")
     # ---- oracle: the same reference requests in fresh interpreters, several hash seeds / allocation patterns
     hashseeds = list(range(ck.pick(6, 32)))
     sub = [c for c in hcases if c["ref"] is not None][: ck.pick(150, 400)]
@@ -289,6 +309,8 @@ def run(ck: core.Check):
         elif j < len(sub):
             # compare with the long-lived process after its history
             k_ = idx_of[id(sub[j])]
+            if k_ >= len(inproc):
+                continue
             mine = inproc[k_]["ref_after"]
             theirs = next(iter(shas.values()))
             if mine != theirs:
@@ -298,8 +320,10 @@ def run(ck: core.Check):
                            {"mode": "fresh-vs-history", "prog": fc["prog"], "hist": sub[j]["hist"], "ref": fc["ref"],
                             "hashseeds": hashseeds[:3], "salt": fc["salt"], "prelude": prelude})
         stats["refs"] += 1
+    lap("fresh_processes")
     ck.cov.update({
-        "histories": len(hcases),
+        "phase_seconds": phases,
+        "histories": len(inproc),
         "fresh_process_cases": len(fresh_cases),
         "hash_seeds": len(hashseeds),
         "distribution": stats,
